@@ -160,6 +160,23 @@ static size_t p_hex(unsigned char** out) {
 static cbor_item_t* p_item(void);
 static cbor_item_t* p_string(int text) {
   unsigned char* d; p_eat('('); size_t n = p_hex(&d);
+  if (*P == '>' && P[1] == '>') {
+    /* x(hex1>>hex2): set_handle(block1, len1), then the client takes the handle back, attaches ANOTHER block with the second content and releases
+       the first block itself (the item never frees a handle it no longer holds); denotes the string hex2 */
+    P += 2;
+    unsigned char* d2; size_t n2 = p_hex(&d2); p_eat(')');
+    extern _cbor_malloc_t _cbor_malloc; extern _cbor_free_t _cbor_free;
+    unsigned char* blk1 = _cbor_malloc(n ? n : 1); unsigned char* blk2 = _cbor_malloc(n2 ? n2 : 1);
+    cbor_item_t* r = text ? cbor_new_definite_string() : cbor_new_definite_bytestring();
+    if (!r || !blk1 || !blk2) { perr = 2; free(d); free(d2); return r; }
+    if (n) memcpy(blk1, d, n);
+    if (n2) memcpy(blk2, d2, n2);
+    if (text) cbor_string_set_handle(r, blk1, n); else cbor_bytestring_set_handle(r, blk1, n);
+    unsigned char* oldh = text ? cbor_string_handle(r) : cbor_bytestring_handle(r);
+    if (text) cbor_string_set_handle(r, blk2, n2); else cbor_bytestring_set_handle(r, blk2, n2);
+    _cbor_free(oldh);
+    free(d); free(d2); return r;
+  }
   if (*P == '>') {
     /* x(hex1>hex2): a string built with new_definite_* + set_handle(block, len1), whose handle is then set AGAIN to the same block with other
        content and length (modified in place); denotes the string hex2 */
